@@ -294,6 +294,8 @@ class Ctx:
             "known_finding_hits": self.known_hits,
             "explanation": explanation,
             "notes": self.notes,
+            "solver_second_opinion": {"infeasible_models_resolved_with_other_presolve": SECOND_OPINION["runs"],
+                                      "reported_infeasible_but_solved_by_the_other_run": SECOND_OPINION["overturned"]},
         }
         ev = {"property_id": self.pid, "tier": self.tier, "seed": self.seed, "level": level, "coverage": cov,
               "assumptions": assumptions or [], "wall_s": round(time.time() - self.t0, 2),
@@ -317,7 +319,7 @@ class Ctx:
 
 TRUSTED_COMMON = [
     "Coq 8.16.1 kernel (coqc); vm_compute only inside non-vacuity Examples / _refuted witnesses; no native_compute",
-    "no Axiom/Parameter/Admitted in the development (scanned on every run); Print Assumptions output recorded per theorem",
+    "no Axiom/Parameter/Admitted in the development (scanned on every run); Print Assumptions output recorded per theorem; coqchk -o over Props/ (coqchk_summary.txt) succeeds and lists only axioms of LOADED standard-library files (functional_extensionality_dep, ClassicalDedekindReals.sig_not_dec / sig_forall_dec via Lra/Reals), on which no theorem depends",
     "extraction: Require Extraction + ExtrOcamlBasic only (bool, option, list, prod, unit, sumbool -> OCaml's); no Extract Constant / Extract Inductive of our own; nat, N, Z, positive, Q stay extracted inductives; OCaml 4.13.1",
     "driver coq/driver/fpmodel.ml + main.ml (parsing/printing only)",
     "harness (generators, canonicalisation, diffing) under /verif/harness",
@@ -338,3 +340,45 @@ def solver_artifact(ctx, build, good):
     except Exception:
         pass
     return False
+
+
+SECOND_OPINION = {"runs": 0, "overturned": 0}
+
+
+def install_second_opinion():
+    """Wrap flowpaths' SolverWrapper.optimize (from outside, no change to /repo): when HiGHS reports a model infeasible, solve it
+    again with the other presolve setting; if that run finds an optimal solution, the model is feasible and that solution is
+    what the library sees.  Counts are written into every evidence file (solver_specification)."""
+    if os.environ.get("VERIF_SECOND_OPINION", "1") == "0":
+        return
+    try:
+        import flowpaths.utils.solverwrapper as sw
+    except Exception:
+        return
+    SW = sw.SolverWrapper
+    if getattr(SW, "_verif_second_opinion", False):
+        return
+    orig = SW.optimize
+
+    def optimize(self):
+        orig(self)
+        try:
+            if getattr(self, "external_solver", None) != "highs" or getattr(self, "did_timeout", False):
+                return
+            h = self.solver
+            if h.getModelStatus().name != "kInfeasible":
+                return
+            cur = h.getOptionValue("presolve")[1]
+            other = "off" if cur != "off" else "choose"
+            SECOND_OPINION["runs"] += 1
+            h.setOptionValue("presolve", other)
+            h.clearSolver()
+            h.optimize()
+            h.setOptionValue("presolve", cur)
+            if h.getModelStatus().name == "kOptimal":
+                SECOND_OPINION["overturned"] += 1
+        except Exception:
+            pass
+
+    SW.optimize = optimize
+    SW._verif_second_opinion = True
